@@ -196,7 +196,7 @@ func allocKey(dec string) string {
 	case "bytesS", "strlistS":
 		return "stream-bytes-alloc"
 	}
-	if (strings.HasPrefix(dec, "hs:") || strings.HasPrefix(dec, "hr:")) && (strings.Contains(dec, "zlib") || strings.Contains(dec, "gzip")) {
+	if (strings.HasPrefix(dec, "hs:") || strings.HasPrefix(dec, "hr:") || strings.HasPrefix(dec, "hq:")) && (strings.Contains(dec, "zlib") || strings.Contains(dec, "gzip")) {
 		return "inflate-alloc" // the connection handler behind a compressing wrapper
 	}
 	return dec + "-alloc"
@@ -217,7 +217,7 @@ func run(dec string, in []byte, class string) resp {
 		return resp{Class: "skipped"}
 	}
 	r := wk.call(dec, in)
-	if (strings.HasPrefix(dec, "hs:") || strings.HasPrefix(dec, "hr:")) && r.Class != "dead" && r.Class != "hang" && r.Alloc > thr(len(in))+r.Base {
+	if (strings.HasPrefix(dec, "hs:") || strings.HasPrefix(dec, "hr:") || strings.HasPrefix(dec, "hq:")) && r.Class != "dead" && r.Class != "hang" && r.Alloc > thr(len(in))+r.Base {
 		// a whole connection: pooled buffers and writers (sync.Pool) are re-allocated after a
 		// garbage collection, which is noise of up to a few MB; an allocation that is out of
 		// proportion repeats: the smallest of three runs is judged
@@ -252,7 +252,7 @@ func run(dec string, in []byte, class string) resp {
 		out.Add(fmt.Sprintf("C %s %s %s %d", c, vh.Bytes(in), o, cls), dec+"/"+class, nontrivial, desc)
 	} else if dec == "json" && r.Term != "" {
 		out.Add(r.Term, dec+"/"+class, nontrivial, desc)
-	} else if dec == "recv" && r.Class != "hang" {
+	} else if (dec == "recv" || dec == "recvseq") && r.Class != "hang" {
 		o := "Panic"
 		switch r.Class {
 		case "ok":
@@ -263,7 +263,11 @@ func run(dec string, in []byte, class string) resp {
 			o = vh.ResErr(0)
 		}
 		a := devA()
-		out.Add(fmt.Sprintf("CRecv %s %s %s %d", vh.Bytes(a[:]), vh.Bytes(in), o, cls), dec+"/"+class, nontrivial, desc)
+		ctor := "CRecv"
+		if dec == "recvseq" {
+			ctor = "CRecvSeq"
+		}
+		out.Add(fmt.Sprintf("%s %s %s %s %d", ctor, vh.Bytes(a[:]), vh.Bytes(in), o, cls), dec+"/"+class, nontrivial, desc)
 	} else if strings.HasPrefix(dec, "b64:") && r.Class != "hang" {
 		o := "Panic"
 		switch r.Class {
